@@ -692,6 +692,8 @@ pub fn run(cfg: &Cfg) -> Report {
       ("\"\\uD83D", (false, false, false, false)),
       ("\"\\U10FFFF\\U110000\"", (false, false, false, false)),
       ("/* never closed", (false, false, false, false)),
+      ("/* a */ /* b */ 1 // c\n // d\n /* e */ + /**//**/ 2", (false, false, false, false)),
+      ("/* a */ // b", (false, false, false, false)),
       ("// only a comment", (false, false, false, false)),
       ("", (false, false, false, false)),
       ("            ", (false, false, false, false)),
